@@ -7,6 +7,10 @@ Case lines
      carrying the wiring-time passive marker (NodeBuilder::with_passive_inputs), 3 passive + marker.
      Only 1 is subscribed at start.  Markers that would leave a node with declared-active inputs without any
      active input are refused by the builder (observation line 18 2).
+     required: bit 0 = the slot is required valid (valid selector / default: every slot); bits 1-2 = role:
+     0 plain TS<int> slot, 1 / 2 first / second element of ONE slot of type TSL<TS<int>,2> whose two elements are
+     bound to two producers (two consecutive entries, same active / required / all-valid flags); bit 3 = the slot is
+     listed in schema.all_valid_inputs.  A list slot is valid when one element is, all-valid when both are.
   3 i k code a b          op for node i in its k-th user-code run (k=-1 start hook, k=-2 default)
      code 1 schedule(now+a, tag b)  2 un_schedule(tag b)  3 un_schedule()  4 pop_tag(b)  5 reset()
           6 emit a + sum(valid inputs)  7 graph.schedule_node(self, now+a)  8 throw
@@ -76,6 +80,14 @@ def gen(rng, tier, prop):
             if rng.random() < 0.97 or not any(a == 2 for _, a, _ in ins):
                 s0 = ins[0]
                 ins[0] = (s0[0], 1, s0[2])
+        if nin >= 2 and rng.random() < 0.22:
+            # one list-shaped slot: two consecutive entries bound to two producers
+            k = rng.randrange(nin - 1)
+            act = 1 if 1 in (ins[k][1], ins[k + 1][1]) else ins[k][1]
+            req = ins[k][2] & 1
+            allv = 8 if rng.random() < 0.6 else 0
+            ins[k] = (ins[k][0], act, req + 2 + allv)
+            ins[k + 1] = (ins[k + 1][0], act, req + 4 + allv)
         uses_sched = 1 if rng.random() < sched_w else 0
         has_out = 1 if rng.random() < 0.75 or i == 0 else 0
         sos = 1 if (nin == 0 and rng.random() < 0.7) or rng.random() < 0.1 else 0
@@ -127,12 +139,26 @@ def gen(rng, tier, prop):
                     elif r < 0.985:
                         ops.append([8, 0, 0])
                     elif ins:
-                        ops.append([rng.choice([9, 9, 10]), rng.randrange(len(ins)), 0])
+                        plain = [k for k, e in enumerate(ins) if (e[2] >> 1) & 3 == 0]
+                        if plain:
+                            ops.append([rng.choice([9, 9, 10]), rng.choice(plain), 0])
                 if not ops:
                     ops = [[0, 0, 0]]  # explicit empty script for run k (overrides the default)
                 for op in ops:
                     case.append([3, i, k] + op)
     return case
+
+
+def no_lists(case):
+    """Turn list-shaped slots into plain slots (for families whose drivers embed core programs without them)."""
+    out = []
+    for l in case:
+        if l[0] == 2:
+            l = list(l)
+            for s in range(l[5]):
+                l[9 + 3 * s] &= 1
+        out.append(l)
+    return out
 
 
 def no_refusal(case):
@@ -159,8 +185,11 @@ def parse_case(case):
         if l[0] == 1:
             start, end = l[1], l[2]
         elif l[0] == 2:
-            ins = [(l[7 + 3 * s], l[8 + 3 * s], l[9 + 3 * s]) for s in range(l[5])]
-            nodes.append(dict(us=l[2], sos=l[3], ho=l[4], vmode=l[6], ins=ins))
+            ins = [(l[7 + 3 * s], l[8 + 3 * s], l[9 + 3 * s] & 1) for s in range(l[5])]
+            role = [(l[9 + 3 * s] >> 1) & 3 for s in range(l[5])]
+            allv = [(l[9 + 3 * s] >> 3) & 1 for s in range(l[5])]
+            mate = [ins[s + 1][0] if role[s] == 1 and s + 1 < l[5] else (ins[s - 1][0] if role[s] == 2 and s > 0 else None) for s in range(l[5])]
+            nodes.append(dict(us=l[2], sos=l[3], ho=l[4], vmode=l[6], ins=ins, role=role, allv=allv, mate=mate))
         elif l[0] == 3:
             scripts.setdefault((l[1], l[2]), []).append((l[3], l[4], l[5]))
     return start, end, nodes, scripts
@@ -184,6 +213,8 @@ def stats(case, out):
             "selector_gap_marker": sum(1 for n in nodes if any(a in (0, 3) for (_s, a, _r) in n["ins"][:-1])
                                        and any(a == 2 and any(b in (0, 3) for (_s2, b, _r2) in n["ins"][:k])
                                                for k, (_s, a, _r) in enumerate(n["ins"]))),
+            "list_slots": sum(1 for n in nodes for r in n["role"] if r == 1),
+            "all_valid_slots": sum(1 for n in nodes for k, r in enumerate(n["role"]) if r == 1 and n["allv"][k]),
             "invalidations": sum(1 for l in out if l and l[0] == 16 and l[3] == 1) if isinstance(out, list) else 0,
             "build_refused": int(any(l and l[0] == 18 for l in out)) if isinstance(out, list) else 0,
             "ops": sum(len(v) for v in scripts.values()),
@@ -301,6 +332,17 @@ def oracle(prop, case, out):
             pending[i].discard(e)
         cur_raw[i] = False
 
+    def node_ready(nd):
+        # every slot required valid holds a value (a list slot: one of its two producers does), and every element
+        # of a slot in the all-valid selector holds a value
+        for k, (src, _a, req) in enumerate(nd["ins"]):
+            if nd["vmode"] == 0 or req:
+                if outv[src] is None and (nd["mate"][k] is None or outv[nd["mate"][k]] is None):
+                    return False
+            if nd["allv"][k] and outv[src] is None:
+                return False
+        return True
+
     open_eval = None
     cur_raw = {}
     woke = {}
@@ -351,7 +393,7 @@ def oracle(prop, case, out):
             open_eval = (i, t)
             # C03: evaluated and ready <=> user code runs (the 12-line follows immediately)
             nd = nodes[i]
-            is_ready = all(outv[src] is not None for (src, _a, req) in nd["ins"] if nd["vmode"] == 0 or req)
+            is_ready = node_ready(nd)
             ran_now = pos + 1 < L and out[pos + 1][0] == 12 and out[pos + 1][1] == i and out[pos + 1][2] == t
             if is_ready and not ran_now and not err:
                 fails.append(("not_run", "node %d evaluated at %d with all required inputs valid but user code did not run" % (i, t)))
@@ -376,8 +418,10 @@ def oracle(prop, case, out):
                 if [valid, mod, val, lmt] != exp:
                     fails.append(("stale_read", "node %d input %d at %d reads %s, producer state implies %s"
                                   % (i, s, t, [valid, mod, val, lmt], exp)))
-                if (nd["vmode"] == 0 or req) and not ev:
+                if (nd["vmode"] == 0 or req) and not ev and (nd["mate"][s] is None or outv[nd["mate"][s]] is None):
                     fails.append(("ran_not_ready", "node %d ran at %d with required input %d invalid" % (i, t, s)))
+                if nd["allv"][s] and not ev:
+                    fails.append(("ran_not_ready", "node %d ran at %d with element %d of an all-valid slot holding no value" % (i, t, s)))
             if nd["us"]:
                 exp_now = int(due(i, t))
                 if l[4] != exp_now:
@@ -415,7 +459,7 @@ def oracle(prop, case, out):
                     elif a == 0 and raw[i] is not None:
                         raw_dropped.add(raw[i])   # schedule_now while being evaluated overrides a later raw request
                         raw[i] = None
-                elif code in (9, 10) and 0 <= a < len(nd["ins"]):
+                elif code in (9, 10) and 0 <= a < len(nd["ins"]) and nd["role"][a] == 0:
                     actv[i][a] = (code == 10)
                 elif code == 6 and nd["ho"]:
                     pass
